@@ -27,6 +27,7 @@ type vcOp struct {
 	H        int    // handle slot (task-local)
 	Field    string
 	Filter   bool
+	EngFail  bool // open: the engine fails the load of the index, should this open need one
 	Except   []uint32
 	HasEx    bool
 	Q        []float32
@@ -73,7 +74,7 @@ func searchOn(vi segment.VectorIndex, o *vcOp) ([]CVecHit, error) {
 
 // genVcOps draws the op list of one task. Handles are task-local slots; a
 // search only runs on an open handle; every handle is closed at the end.
-func genVcOps(c *Chooser, w *World, ndocs uint64, n int, withTicks bool) []vcOp {
+func genVcOps(c *Chooser, w *World, ndocs uint64, n int, withTicks, withFaults bool) []vcOp {
 	var ops []vcOp
 	open := map[int]*vcOp{}
 	fields := []string{}
@@ -103,6 +104,14 @@ func genVcOps(c *Chooser, w *World, ndocs uint64, n int, withTicks bool) []vcOp 
 						o.Except = append(o.Except, uint32(d))
 					}
 				}
+			}
+			if withFaults && c.Prob(1, 10, "vc.engfail") {
+				// the engine refuses to load the index for this open (if it has to be
+				// loaded): the open fails and nothing else changes - in particular the
+				// failure is not remembered
+				o.EngFail = true
+				ops = append(ops, o)
+				continue
 			}
 			ops = append(ops, o)
 			oo := o
@@ -235,7 +244,7 @@ func vecCacheHistories(r *RunCtx) {
 	}
 	opsOf := make([][]vcOp, nt)
 	for t := range opsOf {
-		opsOf[t] = genVcOps(c, w, ndocs, 4+c.Choose(14, "vc.nops"), !concurrent || t == 0)
+		opsOf[t] = genVcOps(c, w, ndocs, 4+c.Choose(14, "vc.nops"), !concurrent || t == 0, !concurrent)
 	}
 	results := make([][]vcSearch, nt)
 	errsOf := make([]string, nt)
@@ -249,6 +258,30 @@ func vecCacheHistories(r *RunCtx) {
 			o := &opsOf[t][i]
 			switch o.Kind {
 			case "open":
+				if o.EngFail {
+					fired := false
+					faiss.Hook = func(op string, n int) error {
+						if op == "ReadIndexFromBuffer" && !fired {
+							fired = true
+							return errEngine
+						}
+						return nil
+					}
+					vi, err := vs.InterpretVectorIndex(o.Field, o.Filter, o.except())
+					faiss.Hook = nil
+					if fired {
+						r.count("fault.engine.load-failed-in-open")
+						if err == nil {
+							if errsOf[t] == "" {
+								errsOf[t] = fmt.Sprintf("%s: the engine failed to load the index, the open reported no error", vcOpString(o))
+							}
+						}
+					}
+					if err == nil && vi != nil {
+						vi.Close()
+					}
+					continue
+				}
 				vi, err := vs.InterpretVectorIndex(o.Field, o.Filter, o.except())
 				if err != nil {
 					if errsOf[t] == "" {
